@@ -56,7 +56,7 @@ def mk_fees(it, prog):
     global FEE_FIELDS
     d = prog.src.find_adt(['ic_btc_interface', 'Fees'])
     FEE_FIELDS = d.fields
-    vals = {f: it.fresh('fee_' + f, 'u128', 0, 1 << 100) for f in d.fields}
+    vals = {f: it.fresh('fee_' + f, 'u128', 0, (1 << 64) - 1 if ('per_ten' in f or 'per_byte' in f) else 1 << 100) for f in d.fields}
     return Agg('Fees', [Cell(vals[f]) for f in d.fields]), {k: v.t for k, v in vals.items()}
 
 
@@ -120,7 +120,6 @@ def kernel_metered(prog, rep, cands, which):
         state, fv = base_state(it, prog)
         base, rate, mx = fv[pre + '_base'], fv[pre + '_cycles_per_ten_instructions'], fv[pre + '_maximum']
         it.assume(base <= mx)                       # tables with maximum < base: reported separately (outside the claim)
-        it.assume(rate < (1 << 64))
         cyc = Cycles(it)
         variant = it.choose(2 if which == 'h' else 3, 'variant')     # 0: update, 1: inner Err, 2: query
         inner_err = it.choose(2, 'inner')
@@ -157,7 +156,8 @@ def kernel_metered(prog, rep, cands, which):
                 cands.add(kernel=which, role='query-variant-traps', model=it.model_ if it.feasible() else None, fees=dict(fv), avail=cyc.avail0)
             return
         if outcome == 'ok':
-            exp = base + zmin((ins_t[0] / 10) * rate, mx - base)
+            from mirsym.interp import sym_mul
+            exp = base + zmin(sym_mul(ins_t[0] / 10, rate), mx - base)
         else:
             exp = base
         judge(it, rep, cands, which, cyc, outcome, exp, fv, mx, endpoint=pre, ins=ins_t[0] if ins_t[0] is not None else 0)
@@ -388,7 +388,7 @@ def main():
     prog = H.load_program(['canister'])
     btc.load_dep_decls(prog)
     rep.cov['mir'] = dict(prog.info)
-    rep.cov['bounds'] = dict(fee_table='every field symbolic u128 < 2^100 (rate < 2^64), base <= maximum and flat <= maximum assumed',
+    rep.cov['bounds'] = dict(fee_table='every field symbolic u128 < 2^100 (rates < 2^64), base <= maximum and flat <= maximum assumed',
                              attached_cycles='symbolic u128 < 2^120', instructions='symbolic u64 < 2^63',
                              payload_len='symbolic < 2^32', outside='fee tables with maximum < base (behaviour reported under maximum_lt_base_reported)')
     rep.cov['functions_encoded'] = ['get_utxos_private', 'get_utxos::{get_utxos,get_utxos_query}', 'get_block_headers::get_block_headers',
